@@ -151,3 +151,8 @@ SCENQ(q_resume_vs_retire, 3, ({0, U}), 40, false, L({0, P}, {1, Q}, {2, Q}), L({
 // quiescent state racing with another thread's departure with pending requests
 SCENQ(q_q_vs_pause, 3, ({0, Q}), 60, true, L({1, R}, {2, Q}, {1, Q}), L({1, P}), L({0, 99}))
 SCENQ(q_q_vs_resume, 3, ({0, Q}), 60, false, L({2, P}, {1, R}, {1, Q}), L({2, U}, {2, R}), L({1, Q}, {2, Q}))
+// a leaver that advances the epoch has its state-word CAS fail because a thread that ALREADY quiesced in this epoch leaves in the window (thread-count-only
+// change, so the retry still advances the epoch): the orphan lists must be aged ONCE for this one epoch change.  A request retired in the current epoch by a
+// thread that paused afterwards sits on the orphaned current-interval list while thread 0 (quiesced before the retire) still holds a reference (seed C05d)
+SCENQ(q_leave_cas_retry, 3, ({1, P}), 60, false, L({0, Q}, {2, R}, {2, P}, {2, U}, {2, Q}), L({2, P}), L({0, Q}, {0, Q}))
+SCENQ(q_leave_cas_retry4, 4, ({1, P}), 60, false, L({0, Q}, {3, Q}, {2, R}, {2, P}, {2, U}, {2, Q}), L({3, P}), L({0, Q}, {0, Q}))
